@@ -604,7 +604,8 @@ class Agent_0(rpu.AgentComponent):
             if time.time() >= self._starttime + (int(self._cfg.runtime) * 60):
 
                 self._log.info('runtime limit (%ss).', self._cfg.runtime * 60)
-                self._final_cause = 'timeout'
+                if not self._final_cause:
+                    self._final_cause = 'timeout'
                 self.stop()
                 return False  # we are done
 
@@ -701,7 +702,8 @@ class Agent_0(rpu.AgentComponent):
     def stop(self):
 
         self._log.info('stop agent')
-        self._final_cause = 'cancel'
+        if not self._final_cause:
+            self._final_cause = 'cancel'
         super().stop()
         self._session.close()
 
@@ -717,7 +719,8 @@ class Agent_0(rpu.AgentComponent):
             return True
 
         self._log.info('cancel pilot cmd')
-        self._final_cause = 'cancel'
+        if not self._final_cause:
+            self._final_cause = 'cancel'
         self.publish(rpc.CONTROL_PUBSUB, {'cmd' : 'terminate',
                                           'arg' : None})
         self.stop()
